@@ -1,0 +1,83 @@
+//go:build verif
+
+package ratelimit
+
+import (
+	"net/netip"
+	"sync/atomic"
+	"time"
+
+	cache "github.com/patrickmn/go-cache"
+)
+
+// Verification hooks for property C09.  Backoff and RequestCounter read the
+// wall clock themselves, so a harness cannot present them with a history that
+// spans the interval, the backoff period or the backoff duration without
+// sleeping.  The hooks below age the limiter's state instead: moving every
+// stored instant (ring stamps, cache expiry stamps) d into the past is, for
+// the code, indistinguishable from the clock having advanced by d.
+
+// VerifC09AgeCounter moves every stamp recorded by r d into the past.  The
+// ring keeps its size, fill level and position.
+func VerifC09AgeCounter(r *RequestCounter, d time.Duration) {
+	r.mu.Lock()
+	defer r.mu.Unlock()
+
+	// Range visits the recorded stamps from the oldest to the newest; Clear
+	// rewinds the ring without touching its buffer, so pushing the same number
+	// of stamps again restores the position (and fullness) exactly.
+	var stamps []int64
+	r.ring.Range(func(ts int64) (cont bool) {
+		stamps = append(stamps, ts-int64(d))
+
+		return true
+	})
+
+	r.ring.Clear()
+	for _, ts := range stamps {
+		r.ring.Push(ts)
+	}
+}
+
+// VerifC09AgeBackoff moves the whole state of l d into the past: the stamps of
+// every request counter and the expiry of every entry of both caches.  The
+// cache objects, their default expirations and their entries' values are kept.
+func VerifC09AgeBackoff(l *Backoff, d time.Duration) {
+	verifC09AgeCache(l.reqCounters, d, func(v any) {
+		VerifC09AgeCounter(v.(*RequestCounter), d)
+	})
+	verifC09AgeCache(l.hitCounters, d, nil)
+}
+
+// verifC09AgeCache moves the expiry of every unexpired entry of c d into the
+// past; each, if not nil, is called with every such entry's value.
+func verifC09AgeCache(c *cache.Cache, d time.Duration, each func(v any)) {
+	for k, it := range c.Items() {
+		if each != nil {
+			each(it.Object)
+		}
+
+		if it.Expiration == 0 {
+			// Never expires.
+			continue
+		}
+
+		left := it.Expiration - int64(d) - time.Now().UnixNano()
+		if left <= 0 {
+			c.Delete(k)
+		} else {
+			c.Set(k, it.Object, time.Duration(left))
+		}
+	}
+}
+
+// VerifC09Hits returns the current over-limit hit count of the subnet of ip,
+// if there is an unexpired one.
+func VerifC09Hits(l *Backoff, ip netip.Addr) (n uint64, ok bool) {
+	v, ok := l.hitCounters.Get(l.subnetKey(ip))
+	if !ok {
+		return 0, false
+	}
+
+	return v.(*atomic.Uint64).Load(), true
+}
